@@ -75,6 +75,7 @@ Definition rval_match (m o : rval) : bool :=
   | RMsgFlags a, RMsgFlags b => Nat.eqb (length a) (length b) &&& forallb (fun x => mf_in x b) a
   | RCountUid a b, RCountUid c d => N.eqb a c && N.eqb b d
   | ROptNum a, ROptNum b => optn_eqb a b
+  | RUidFlags a x, RUidFlags b y => N.eqb a b &&& fseteq x y
   | _, _ => false
   end.
 
